@@ -39,6 +39,12 @@ is not listed makes the documented default 1.  The complete product over the blo
 with the sampler class of the held block (every block sampler, held or not, is re-targeted and re-initialised at every
 visit; NUTS through a path of its own) and with the way the number is written: python int / numpy.int64 / float /
 bool.  Oracle: a run that is not refused makes exactly the integer number of transitions per visit.
+
+Facet "family and LOCATION of a block's prior" (kernels that keep quantities DERIVED from the prior, the current point
+and the current other blocks across the get_state / reinitialise / set_state cycle HybridGibbs runs at every visit):
+joints x ~ LMRF(location, 0.5), l ~ Gamma, y ~ N(Ax, 1/l) with location in {non-zero vector, non-zero scalar, 0}; the x
+block sampled by UGLA (judged against a dense reference of one UGLA transition linearised at the block's CURRENT value
+for the scripted noise), the precision block by spy / Conjugate (/ MH), both joint orders, all histories.
 """
 import itertools
 import math
@@ -57,7 +63,8 @@ RULE = ("cell = (interface, joint, assignment of {spy, real...} samplers to bloc
         "plain names / tuples of names that give one sampler class to several blocks; the TYPE of the conditional target "
         "of a block: Posterior / MultipleLikelihoodPosterior / plain Distribution, decided by the joint; the VALUE of each "
         "block's step count: 0 (the block is held) / 1 / 2 / 3 / block not listed / listed with None, and its "
-        "REPRESENTATION: python int / numpy.int64 / float / bool); "
+        "REPRESENTATION: python int / numpy.int64 / float / bool; the FAMILY and LOCATION of a block's prior: Gaussian / "
+        "LMRF with location non-zero vector / non-zero scalar / 0, the LMRF block sampled by UGLA); "
         "inside a cell ALL operation sequences of the tier's depth are executed (prefix histories are judged at "
         "every operation end, so a depth-3 execution decides its 3 prefixes) and, with MH / MALA / NUTS blocks, all leaves of "
         "the decision tree of their uniform draws inside the stated deviation bound; state = (history, decision "
@@ -112,7 +119,11 @@ BOUND = {
              "of (0,1,2); representation of the number (all-spy): numpy.int64 everywhere x {rotations of (0,1,2), (3,1,2), "
              "all 0} x {joint order, both dicts reversed}, bool everywhere x all {False,True}^blocks, float everywhere x "
              "{all 1.0, rotations of (0.0,1.0,2.0)}, ONE block in {int64 0/2, float 0.0/1.0/2.0, False/True} (each position) "
-             "with python ints (3,1,2) / (0,2,0) on the others; set A x rotations of int64 (0,1,2) and of (False,True,2)",
+             "with python ints (3,1,2) / (0,2,0) on the others; set A x rotations of int64 (0,1,2) and of (False,True,2); "
+             "prior facet (HybridGibbs; joints lmrf2 / lmrf2s / lmrf2z: x ~ LMRF(location non-zero vector / non-zero "
+             "scalar / 0, 0.5), l ~ Gamma, y ~ N(Ax, 1/l)): x by UGLA x l in {spy, Conjugate} x counts {(1,1),(3,1)} in the "
+             "usual joint order, (Conjugate, UGLA) with counts (3,1) in the reversed joint order; all op sequences of "
+             "depth<=2",
     "thorough": "as quick but: all assignments of {spy,conj|rto,mh,nuts,mala} kinds (hier3c: those with a NUTS/MALA "
                 "block); num_sampling_steps: full {1,2,3}^blocks product (3-block cells with MH: the 3 all-equal "
                 "patterns + the 6 permutations of (1,2,3); 3-block cells with NUTS/MALA: the 3 all-equal patterns + the 3 "
@@ -136,7 +147,9 @@ BOUND = {
                 "depth<=2 with both / either dict reversed; all {0,2,not listed}^blocks patterns with a 0 x ALL permutation "
                 "pairs; representation: the complete product {int 0/2, int64 0/2, float 0.0/2.0, False/True}^blocks "
                 "(all-spy); every assignment of the main product (also hier3c) x {one block held, the others (3,1,2)} and "
-                "(3-block joints) {one block moving (count 2), the others held}",
+                "(3-block joints) {one block moving (count 2), the others held}; prior facet: every assignment of "
+                "{spy, UGLA, MH} x {spy, Conjugate, MH} with a UGLA block in both joint orders (the others in the usual "
+                "order) x counts {1,2,3}^2, depth<=3 without MH, <=2 with",
 }
 ASSUMPTIONS = [
     "reference joint log-densities (and the gradients of the Gaussian vector blocks, self-checked against central "
@@ -184,10 +197,17 @@ ASSUMPTIONS = [
     "the library refuses (float, None: TypeError at the first visit of that block) ends the history as a refusal, a run "
     "that is not refused must make exactly that number of transitions; negative and non-integral numbers, 0-d arrays "
     "and changing num_sampling_steps on a live sampler are not enumerated; cuqi.sampler.Gibbs takes no step counts",
+    "UGLA block (LMRF prior only; the library offers no other prior for it): judged against the dense least-squares "
+    "solution of one transition of Uribe et al. (2022) sec. 3.3 written in the harness - Gaussian approximation of the "
+    "Laplace-difference prior with weights ((D x)^2 + beta)^(-1/2) at the block's CURRENT value (first differences, zero "
+    "boundary), documented default beta = 1e-5, inner CGLS converged (maxit 50, tol 1e-13, 2 unknowns; compared at "
+    "1e-7); the scale of the LMRF prior is a fixed number (ConjugateApprox blocks and cuqi.sampler.Gibbs with UGLA are "
+    "not in the alphabet); other stateful linear-solver kernels (RegularizedLinearRTO) are not enumerated",
     "dict orders: Python dicts keep insertion order; the blocks of a sweep are expected in the joint's parameter order "
     "(target.get_parameter_names()) whatever the order of the user's dicts",
 ]
 
+LMRF_MODELS = ("lmrf2", "lmrf2s", "lmrf2z")     # location of the LMRF prior: non-zero vector / non-zero scalar / 0
 IFACE_NAME = {"hybrid": "cuqi.experimental.mcmc.HybridGibbs", "legacy": "cuqi.sampler.Gibbs"}
 HYBRID_OPS = [["w", 1], ["w", 2], ["s", 1], ["s", 2]]
 LEGACY_OPS = [["s", 1, 0], ["s", 2, 0], ["s", 0, 1], ["s", 0, 2], ["s", 1, 1], ["s", 2, 2]]
@@ -296,6 +316,22 @@ class Model:
             self.init = {"d": np.array([2.0]), "x": refs.dyadic_vec(n, k + 4, scale=0.25)}
             self.real = {"d": ["mh"], "x": ["mh", "nuts", "mala"]}
             self.special = "x"
+        elif name in LMRF_MODELS:
+            # facet "family and LOCATION of a block's prior": x ~ LMRF(location, 0.5) (Laplace differences, zero boundary),
+            # l ~ Gamma, y ~ N(Ax, 1/l); location a non-zero vector / a non-zero scalar / 0.  The x block admits UGLA, a
+            # kernel that carries quantities derived from (current point, prior location, current others).
+            self.order = ["x", "l"]
+            self.kind = {"l": "pos", "x": "vec"}
+            self.dim = {"l": 1, "x": n}
+            self.hyper = {"l": (3.0, 0.5)}
+            self.lscale = 0.5
+            self.loc = {"lmrf2": self.mx + np.array([0.5, -0.25])[:n], "lmrf2s": np.array([0.375]),
+                        "lmrf2z": np.array([0.0])}[name]
+            self.D = np.zeros((n + 1, n))          # first differences with zero boundary values on both sides
+            for i in range(n):
+                self.D[i, i], self.D[i + 1, i] = 1.0, -1.0
+            self.init = {"x": refs.dyadic_vec(n, k + 4, scale=0.25), "l": np.array([1.5])}
+            self.real = {"x": ["ugla", "mh"], "l": ["conj", "mh"]}
         else:
             raise ValueError(name)
         self.base_order = list(self.order)
@@ -372,6 +408,13 @@ class Model:
             d = Gamma(*self.hyper["d"], name="d")
             x = Gaussian(self.mx.copy(), cov=lambda d: 1 / d, name="x")
             return joint(d, x)
+        if self.name in LMRF_MODELS:
+            from cuqi.distribution import LMRF
+            loc = self.loc.copy() if self.loc.size > 1 else float(self.loc[0])
+            x = LMRF(loc, self.lscale, geometry=self.n, name="x")
+            l = Gamma(*self.hyper["l"], name="l")
+            y = Gaussian(A @ x, cov=lambda l: 1 / l, name="y")
+            return joint(x, l, y)(y=self.y.copy())
         B = self.B.copy()
         u = Gaussian(self.mu.copy(), self.Cu.copy(), name="u")
         v = Gaussian(lambda u: B @ u, 0.5, geometry=self.n, name="v")
@@ -436,6 +479,13 @@ class Model:
             if not d > 0:
                 return -np.inf
             return _gamma_logpdf(d, *self.hyper["d"]) + _gauss_iso(x, self.mx, 1.0 / d)
+        if self.name in LMRF_MODELS:
+            l, x = float(v["l"][0]), v["x"]
+            if not l > 0:
+                return -np.inf
+            dx = self.D @ (x - self.loc)            # a scalar location broadcasts
+            return (_gamma_logpdf(l, *self.hyper["l"]) - len(dx) * math.log(2.0 * self.lscale)
+                    - float(np.sum(np.abs(dx))) / self.lscale + _gauss_iso(self.y, self.A @ x, 1.0 / l))
         u, w = v["u"], v["v"]
         return (refs.gauss_logpdf(u, self.mu, self.Cu) + _gauss_iso(w, self.B @ u, 0.5)
                 + _gauss_iso(self.y, self.A @ w, 0.25))
@@ -465,7 +515,8 @@ class Model:
         a, r = self.hyper[b]
         if self.name == "hier3h" and b == "l":
             r = float(cur["d"][0])          # l ~ Gamma(3, rate=d)
-        elif self.name not in ("hier3", "hier3c", "hier2") and not (self.name == "ml_2y" and b == "d"):
+        elif (self.name not in ("hier3", "hier3c", "hier2") + LMRF_MODELS
+              and not (self.name == "ml_2y" and b == "d")):
             raise HarnessError("no reference conjugate update for block %r of joint %r" % (b, self.name))
         if b == "d" and self.name != "ml_2y":
             res = cur["x"] - self.mx
@@ -489,6 +540,21 @@ class Model:
             raise HarnessError("no reference LinearRTO solution for joint %r" % self.name)
         M = np.vstack([sl * self.A, sp * np.eye(self.n)])
         rhs = np.concatenate([sl * self.y, sp * pm]) + e
+        return np.linalg.lstsq(M, rhs, rcond=None)[0]
+
+    def ugla_solution(self, b, cur, e, beta=1e-5):
+        """One UGLA transition (Uribe et al. 2022, sec. 3.3) from cur[b]: the Laplace-difference prior is replaced by the
+        Gaussian with square-root precision L = diag(((D x_cur)^2 + beta)^(-1/4)) D / sqrt(scale) around the CURRENT
+        value of the block; the draw is argmin || M x - (b~ + e) || with likelihood rows first, then the prior rows
+        L x ~ L location, for the scripted noise e."""
+        if self.name not in LMRF_MODELS:
+            raise HarnessError("no reference UGLA transition for joint %r" % self.name)
+        sl = math.sqrt(float(cur["l"][0]))
+        xk = np.asarray(cur[b], float).ravel()
+        L = (((self.D @ xk) ** 2 + beta) ** -0.25)[:, None] * self.D / math.sqrt(self.lscale)
+        loc = self.loc if self.loc.size > 1 else np.repeat(self.loc, self.n)
+        M = np.vstack([sl * self.A, L])
+        rhs = np.concatenate([sl * self.y, L @ loc]) + e
         return np.linalg.lstsq(M, rhs, rcond=None)[0]
 
     def probes(self, b):
@@ -634,7 +700,7 @@ class Recorder:
 def _hybrid_classes():
     """Recording subclasses for the new interface (built lazily: importing cuqi is slow)."""
     import cuqi
-    from cuqi.experimental.mcmc import Sampler, MH, Conjugate, LinearRTO, NUTS, MALA
+    from cuqi.experimental.mcmc import Sampler, MH, Conjugate, LinearRTO, NUTS, MALA, UGLA
     if getattr(_hybrid_classes, "_c", None):
         return _hybrid_classes._c
 
@@ -685,7 +751,7 @@ def _hybrid_classes():
         return Rec
 
     _hybrid_classes._c = {"spy": Spy, "mh": rec(MH, "mh"), "conj": rec(Conjugate, "conj"),
-                          "rto": rec(LinearRTO, "rto"), "nuts": grec(NUTS, "nuts", "_epsilon"),
+                          "rto": rec(LinearRTO, "rto"), "ugla": rec(UGLA, "ugla"), "nuts": grec(NUTS, "nuts", "_epsilon"),
                           "mala": grec(MALA, "mala", "scale")}
     return _hybrid_classes._c
 
@@ -701,8 +767,8 @@ def _make_hybrid_sampler(kind, block, model, recorder, code, nuts_depth=0):
         s = C(max_depth=int(nuts_depth), step_size=NUTS_EPS, initial_point=ip)
     elif kind == "mala":
         s = C(scale=MALA_SCALE, initial_point=ip)
-    elif kind == "rto":
-        s = C(maxit=50, tol=1e-13, initial_point=ip)
+    elif kind in ("rto", "ugla"):
+        s = C(maxit=50, tol=1e-13, initial_point=ip)      # inner solver converged (2 unknowns); UGLA: default beta
     else:
         s = C(initial_point=ip)
     if code == "attr":
@@ -1155,6 +1221,12 @@ class Judge:
                                     e = normal_script(model.m + model.n, n_norm)
                                     new = model.rto_solution(b, cur, e)
                                 n_norm += 1
+                            elif kind == "ugla":
+                                want_log = ["normal"]
+                                if kinds_log == want_log:
+                                    e = normal_script(model.m + model.n + 1, n_norm)
+                                    new = model.ugla_solution(b, cur, e)
+                                n_norm += 1
                             elif kind == "mh":
                                 want_log = ["normal", "uniform"]
                                 if kinds_log == want_log:
@@ -1265,7 +1337,7 @@ class Judge:
                                           "one transition of a %s block issued random requests %s, expected %s" %
                                           (kind, kinds_log, want_log))
                                 return compared
-                            tol = 1e-7 if kind == "rto" else (1e-9 if kind in GRAD_KINDS else 1e-12)
+                            tol = 1e-7 if kind in ("rto", "ugla") else (1e-9 if kind in GRAD_KINDS else 1e-12)
                             if ev["new"].shape != new.shape or not close(ev["new"], new, tol):
                                 self.fail("block-transition", "kind=%s,value" % kind,
                                           "block %r moved to %s, reference kernel gives %s" % (b, ev["new"], new))
@@ -1771,6 +1843,31 @@ def _ctype_cells(name, tier, k):
                    "full_tree": 4 if quick else (8 if nmh > 1 else 6), "cat": k}
 
 
+def _prior_cells(name, tier, k):
+    """Facet 'family and location of a block's prior' (HybridGibbs): joints whose x block has a Laplace-difference
+    (LMRF) prior with location {non-zero vector, non-zero scalar, 0}; x sampled by {UGLA, spy, (thorough) MH}, the
+    precision block by {spy, Conjugate, (thorough) MH}; both joint orders."""
+    quick = tier == "quick"
+    base = Model(name, k)
+    nb = len(base.order)
+    for jorder in _perms(nb):
+        usual = jorder == list(range(nb))
+        order = [base.order[i] for i in jorder]
+        if quick:
+            assigns = [[{"x": "ugla", "l": o}[b] for b in order] for o in (("spy", "conj") if usual else ("conj",))]
+        else:
+            assigns = [list(a) for a in itertools.product(*[["spy"] + base.real[b] for b in order])
+                       if "ugla" in a or (usual and any(r != "spy" for r in a))]
+        for assign in assigns:
+            nd = _ndec(assign)
+            for ns in ([[1] * nb, [3, 1, 2][:nb]] if (usual or not quick) else [[3, 1, 2][:nb]]):
+                cell = {"iface": "hybrid", "model": name, "assign": list(assign), "nsteps": list(ns),
+                        "depth": 2 if (quick or nd) else 3, "full_tree": 4 if quick else 8, "cat": k}
+                if not usual:
+                    cell["jorder"] = list(jorder)
+                yield cell
+
+
 def _cost(c):
     """Rough relative cost of a cell (only used to ORDER the cells; the set of cells is not affected)."""
     nops = len(HYBRID_OPS if c["iface"] == "hybrid" else LEGACY_OPS)
@@ -1850,6 +1947,10 @@ def _cells(tier, seed):
     # ---- facet "type of the conditional target of a block" ----
     for mname in ("ml_sp", "ml_2y", "prior2", "hier3h"):
         for c in _ctype_cells(mname, tier, k):
+            yield c
+    # ---- facet "family and location of a block's prior" (kernels with state derived from it: UGLA) ----
+    for mname in LMRF_MODELS:
+        for c in _prior_cells(mname, tier, k):
             yield c
 
 
